@@ -83,6 +83,29 @@ Definition ex_join_bad : entry := EMessage 15 15000 12 33 "" "JOIN #chan guess".
 Definition ex_gsv'' : server := the_result (apply_entry Examples.ex_env ex_gsv ex_join_bad).
 
 Definition the_out (o : outcome) : list omsg := match o with OOk _ out => out | _ => [] end.
+Definition is_ook (o : outcome) : bool := match o with OOk _ _ => true | _ => false end.
+Definition is_some {A} (o : option A) : bool := match o with Some _ => true | None => false end.
+Lemma is_ook_spec o : is_ook o = true -> o = OOk (the_result o) (the_out o).
+Proof. destruct o; try discriminate. reflexivity. Qed.
+Lemma the_state_spec o : is_some o = true -> o = Some (the_state o).
+Proof. destruct o; try discriminate. reflexivity. Qed.
+Lemma the_session_spec sv k : is_some (sv_sessions sv !! k) = true -> sv_sessions sv !! k = Some (the_session sv k).
+Proof. unfold the_session. destruct (sv_sessions sv !! k); try discriminate. reflexivity. Qed.
+Lemma the_chan_spec sv lc : is_some (sv_channels sv !! lc) = true -> sv_channels sv !! lc = Some (the_chan sv lc).
+Proof. unfold the_chan. destruct (sv_channels sv !! lc); try discriminate. reflexivity. Qed.
+
+(* all decidable facts about the example in one evaluation *)
+Definition ex_gate_check : bool :=
+  let s := the_session ex_gsv (12%N, 0%N) in let c := the_chan ex_gsv "#chan" in let c' := the_chan ex_gsv' "#chan" in
+  Examples.wf_history_b Examples.ex_env (init_server "robustirc.net") ex_gate_prefix &&
+  is_some (run Examples.ex_env (init_server "robustirc.net") ex_gate_prefix) &&
+  is_ook (apply_entry Examples.ex_env ex_gsv ex_join) &&
+  is_some (sv_sessions ex_gsv !! (12%N, 0%N)) && negb (s_server s) && negb (s_operator s) &&
+  is_some (sv_channels ex_gsv !! "#chan") && has_mode 107 (c_modes c) && bool_decide (c_key c = "secret") &&
+  bool_decide (c_nicks c !! "baz" = None) && negb (is_chanop_b ex_gsv (12%N, 0%N) "#chan") &&
+  is_some (sv_channels ex_gsv' !! "#chan") && bool_decide (c_nicks c' !! "baz" = Some (false, false)) &&
+  is_ook (apply_entry Examples.ex_env ex_gsv ex_join_bad) &&
+  bool_decide (c_nicks (the_chan ex_gsv'' "#chan") !! "baz" = None) && is_some (sv_channels ex_gsv'' !! "#chan").
 
 Example ex_gate_nonvacuous :
   let s := the_session ex_gsv (12%N, 0%N) in let c := the_chan ex_gsv "#chan" in let c' := the_chan ex_gsv' "#chan" in
@@ -94,26 +117,19 @@ Example ex_gate_nonvacuous :
     c_nicks c !! "baz" = None /\ ~ is_chanop ex_gsv (12%N, 0%N) "#chan" /\
     sv_channels ex_gsv' !! "#chan" = Some c' /\ c_nicks c' !! "baz" = Some (false, false) /\
     (* with a wrong key the session stays outside *)
-    apply_entry Examples.ex_env ex_gsv ex_join_bad = OOk ex_gsv'' out2 /\ sv_channels ex_gsv'' !! "#chan" = Some c.
+    apply_entry Examples.ex_env ex_gsv ex_join_bad = OOk ex_gsv'' out2 /\
+    sv_channels ex_gsv'' !! "#chan" = Some (the_chan ex_gsv'' "#chan") /\ c_nicks (the_chan ex_gsv'' "#chan") !! "baz" = None.
 Proof.
   cbv zeta.
   exists (the_out (apply_entry Examples.ex_env ex_gsv ex_join)), (the_out (apply_entry Examples.ex_env ex_gsv ex_join_bad)).
-  (* everything decidable at once: one evaluation of the history *)
-  assert (H :
-     (Examples.wf_history_b Examples.ex_env (init_server "robustirc.net") ex_gate_prefix,
-      run Examples.ex_env (init_server "robustirc.net") ex_gate_prefix,
-      apply_entry Examples.ex_env ex_gsv ex_join, sv_sessions ex_gsv !! (12%N, 0%N),
-      s_server (the_session ex_gsv (12%N, 0%N)), s_operator (the_session ex_gsv (12%N, 0%N)),
-      sv_channels ex_gsv !! "#chan", has_mode 107 (c_modes (the_chan ex_gsv "#chan")), c_key (the_chan ex_gsv "#chan"),
-      c_nicks (the_chan ex_gsv "#chan") !! "baz", is_chanop_b ex_gsv (12%N, 0%N) "#chan",
-      sv_channels ex_gsv' !! "#chan", c_nicks (the_chan ex_gsv' "#chan") !! "baz",
-      apply_entry Examples.ex_env ex_gsv ex_join_bad, sv_channels ex_gsv'' !! "#chan") =
-     (true, Some ex_gsv, OOk ex_gsv' (the_out (apply_entry Examples.ex_env ex_gsv ex_join)),
-      Some (the_session ex_gsv (12%N, 0%N)), false, false,
-      Some (the_chan ex_gsv "#chan"), true, "secret", None, false, Some (the_chan ex_gsv' "#chan"), Some (false, false),
-      OOk ex_gsv'' (the_out (apply_entry Examples.ex_env ex_gsv ex_join_bad)), Some (the_chan ex_gsv "#chan"))).
-  { vm_compute. reflexivity. }
-  injection H as H1 H2 H3 H4 H5 H6 H7 H8 H9 H10 H11 H12 H13 H14 H15.
-  split; [now apply (run_EInv ex_gate_prefix)|]. repeat (split; [assumption|]).
-  split; [now apply is_chanop_b_false|]. repeat (split; [assumption|]). assumption.
+  assert (H : ex_gate_check = true) by (vm_compute; reflexivity).
+  unfold ex_gate_check in H. cbv zeta in H.
+  repeat match type of H with (_ && _ = true) => apply andb_prop in H; let Hn := fresh "B" in destruct H as [H Hn] end.
+  split; [exact (run_EInv ex_gate_prefix _ H (the_state_spec _ B))|].
+  split; [exact (is_ook_spec _ B0)|]. split; [exact (the_session_spec _ _ B1)|].
+  split; [exact (proj1 (negb_true_iff _) B2)|]. split; [exact (proj1 (negb_true_iff _) B3)|].
+  split; [exact (the_chan_spec _ _ B4)|]. split; [exact B5|]. split; [exact (bool_decide_eq_true_1 _ B6)|].
+  split; [exact (bool_decide_eq_true_1 _ B7)|]. split; [exact (is_chanop_b_false _ _ _ (proj1 (negb_true_iff _) B8))|].
+  split; [exact (the_chan_spec _ _ B9)|]. split; [exact (bool_decide_eq_true_1 _ B10)|].
+  split; [exact (is_ook_spec _ B11)|]. split; [exact (the_chan_spec _ _ B13)|exact (bool_decide_eq_true_1 _ B12)].
 Qed.
